@@ -162,6 +162,18 @@ func c05Body(c *core.Ctx, e *liquid.Engine, b string, i int) {
 	} else {
 		c.Skip("comment body swallows or contains the end tag under the reference tokenizer")
 	}
+	// several opaque blocks in one template: each keeps to itself
+	seq := "<{% raw %}" + b + "{% endraw %}|{% comment %}" + b + "{% endcomment %}|{% raw %}R2{% endraw %}{% comment %}C2{% endcomment %}{% raw %}" + b + "{% endraw %}>"
+	if i%4 == 0 && seqAdmitted(seq, []string{"T:<", "raw:" + b, "T:|", "comment:" + b, "T:|", "raw:R2", "comment:C2", "raw:" + b, "T:>"}) {
+		src := seq
+		r := core.Run(e, src, nil)
+		c.Eval(1)
+		c.Obs("raw_comment_sequences", 1)
+		if want := "<" + b + "||R2" + b + ">"; !r.OK() || r.Out != want {
+			c.Violate("raw-comment-sequence|"+resClass(r), "raw and comment blocks following each other do not keep to themselves (raw body verbatim, comment body nothing)",
+				map[string]any{"source": src, "body": b, "expected": want, "observed": r.Brief()})
+		}
+	}
 }
 
 func c05Value(c *core.Ctx, e *liquid.Engine, v string, i int) {
@@ -285,4 +297,37 @@ func runC05(c *core.Ctx) {
 			c.Sample(map[string]any{"law": "random bytes/UTF-8", "len": len(s), "head": core.Trunc(fmt.Sprintf("%q", s), 120)})
 		}
 	}
+}
+
+// seqAdmitted: does src tokenise (reference tokenizer) into exactly the given
+// sequence of outside texts and opaque blocks with these bodies?
+func seqAdmitted(src string, want []string) bool {
+	var got []string
+	open, body := "", ""
+	for _, t := range ref.Tokens(src, ref.DefaultDelims) {
+		switch {
+		case open != "":
+			if t.Kind == ref.Tag && t.Name == "end"+open {
+				got = append(got, open+":"+body)
+				open, body = "", ""
+			} else {
+				body += t.Src
+			}
+		case t.Kind == ref.Tag && (t.Name == "raw" || t.Name == "comment") && t.Args == "" && !t.TrimL && !t.TrimR:
+			open = t.Name
+		case t.Kind == ref.Text:
+			got = append(got, "T:"+t.Src)
+		default:
+			return false
+		}
+	}
+	if open != "" || len(got) != len(want) {
+		return false
+	}
+	for i := range got {
+		if got[i] != want[i] {
+			return false
+		}
+	}
+	return true
 }
